@@ -293,7 +293,7 @@ def run(ctx):
             tot["dims_validated"] += nval
             tot["unordered"] += unordered
 
-    A.pipeline(ctx, "MpiCartGen.tla", jobs, process, par=len(jobs) if quick else 8, timeout=900 if quick else 1700)
+    A.pipeline(ctx, "MpiCartGen.tla", jobs, process, par=len(jobs) if quick else 8, timeout=1700)
     ctx.cov["cases_by_kind"] = bk
     ctx.cov["max_nodes"] = tot["maxn"]
     ctx.cov["dims_create_results_validated_by_tlc"] = tot["dims_validated"]
